@@ -15,9 +15,15 @@ kind 10+memory_order = atomic_thread_fence).  This script
   2. binds the TLA+ constant HasFence of the x86-TSO configuration `mpmc_tso` (per-thread
      FIFO store buffers) to the result and re-runs TLC exhaustively;
   3. reports a violation (V2: the design as extracted from the code violates the property)
-     if TLC finds an invariant violated, i.e. reclamation of a validated node.
+     if TLC finds an invariant violated, i.e. reclamation of a validated node;
+  4. additionally scans every trace for an access to a field of an object after its `free`
+     event.  vrt.c resolves the accessed object BEFORE the thread is parked at the scheduling
+     point, so the access of a thread that was parked on a node while another thread freed it
+     -- the interesting one -- is not reported as `dead_access` by the runtime; the trace
+     still shows it (event with "a":"<obj>.<field>" after {"k":"free","o":"<obj>"}).
 
-Used as an `extra` hook of tools/check.py:   run(ev, report, tier, seed0, outdir)
+Used as an `extra` hook of tools/check.py (props/C14.json "extra": ["extra_c14"]):
+   run(ev, report, tier, seed0, outdir)
 or stand-alone:   python3 tools/extra_c14.py [--tier quick|thorough] [--traces DIR]
 (stand-alone without --traces: uses $VERIF_OUT_DIR/C14/traces if present, otherwise builds
 the harness from $REPO and records a few executions of scenario mpmc_2c itself).
@@ -77,6 +83,18 @@ def analyse(events):
     return pubs, fenced, bad
 
 
+def stale_accesses(events):
+    """accesses (events naming a field "obj.fld") to an object after its `free` event"""
+    freed, out = set(), []
+    for e in events:
+        if e.get("k") == "free":
+            freed.add(e.get("o"))
+        elif e.get("k") in STEP_KINDS and "." in str(e.get("a", "")):
+            if str(e["a"]).split(".")[0] in freed:
+                out.append(e)
+    return out
+
+
 def extract(trace_files):
     import tracecheck
     pubs = fenced = 0
@@ -106,13 +124,30 @@ def recheck(has_fence, workers=8, timeout=900):
     return st, out
 
 
+def _infra(msg):
+    """raise check.py's Infra (exit 2, no VIOLATION line) when running under it"""
+    cls = getattr(sys.modules.get("__main__"), "Infra", None) or RuntimeError
+    raise cls(msg)
+
+
 def run(ev, report, tier, seed0, outdir, trace_dir=None):
     """hook for tools/check.py (cfgp['extra']); returns the status dict"""
     files = sorted(glob.glob(os.path.join(trace_dir or os.path.join(outdir, "traces"), "*.ndjson")))
+    import tracecheck
+    nstale = 0
+    for p in files:
+        st_acc = stale_accesses(tracecheck.load_ndjson(p))
+        if st_acc:
+            nstale += 1
+            if nstale <= 3:
+                report(f"{os.path.basename(p)}: access to reclaimed memory by a thread that was parked on it: "
+                       f"{json.dumps(st_acc[0])[:200]}", p,
+                       {"kind": "dead_access", "scenario": os.path.basename(p).rsplit("_", 1)[0],
+                        "obj": str(st_acc[0].get("a")).split(".")[0], "fn": st_acc[0].get("fn")})
     pubs, fenced, bad = extract(files)
     if pubs == 0:
-        raise RuntimeError("extra_c14: no hazard-pointer publication found in the recorded traces "
-                           f"({len(files)} files): cannot bind HasFence")
+        _infra("extra_c14: no hazard-pointer publication found in the recorded traces "
+               f"({len(files)} files): cannot bind HasFence")
     has_fence = fenced == pubs
     st, out = recheck(has_fence)
     rec = {"scenario": TSO_SCEN, "mode": "exhaustive, x86-TSO store buffers, HasFence extracted from the traces",
@@ -137,7 +172,7 @@ def run(ev, report, tier, seed0, outdir, trace_dir=None):
                    f"{fenced}/{pubs} publications fenced): TLC finds {inv} violated in {TSO_SCEN}", p,
                    {"kind": "design", "scenario": TSO_SCEN, "invariant": inv})
     elif not st["complete"]:
-        raise RuntimeError("extra_c14: TLC did not complete on the TSO configuration:\n" + out[-1500:])
+        _infra("extra_c14: TLC did not complete on the TSO configuration:\n" + out[-1500:])
     return rec
 
 
